@@ -350,6 +350,11 @@ impl<'a> FnCtx<'a> {
                         }
                         (Some(Ty::I32), _) => {
                             if r.chance(1, 10) {
+                                if r.chance(1, 6) {
+                                    // growth around the chain's 512-page cap and the declared maximum
+                                    out.push(Instr::Op(OP_DROP));
+                                    out.push(Instr::Const32(*r.pick(&[0, 1, 2, 509, 510, 511, 512, 513, 600, 65535, 65536])));
+                                }
                                 out.push(Instr::MemGrow);
                             } else {
                                 let ops: &[(u8, u32, Ty)] = &[
@@ -590,8 +595,10 @@ pub fn gen_module(r: &mut Rng, cfg: &Cfg) -> Module {
     }
     if !cfg.memless && r.chance(4, 5) {
         let min = 1 + r.below(2) as u32;
-        let max = match r.below(3) {
-            0 => None,
+        let max = match r.below(12) {
+            0..=3 => None,
+            // a declared maximum beyond the chain's cap of 512 pages
+            4 => Some(*r.pick(&[512u32, 513, 600, 1000, 65535, 65536])),
             _ => Some(min + r.below(3) as u32),
         };
         m.memory = Some((min, max));
